@@ -31,13 +31,18 @@ const maxTxnItems = 6
 var etcdGhosts = map[string]string{
 	"etcdhas": "bool", "etcdval": "int", "etcdlease": "int",
 	"etcdhas0": "bool", "etcdval0": "int", "etcdlease0": "int",
-	"evclock": "int", "evlast": "int", "evres": "int", // ghost event clock (see `event` contract option)
+	"evclock": "int", "evlast": "int", "evres": "int", "evcount": "int", // ghost event clock (see `event` contract option)
 	"etcdn": "int", // etcdn[0] = transactions committed by this process, etcdn[1] = those that changed the store
 }
 
 func ghostSort(vs string) string {
-	if vs == "bool" {
+	switch vs {
+	case "bool":
 		return arrSort(SBool)
+	case "bool2":
+		return arrSort(arrSort(SBool))
+	case "int2":
+		return arrSort(arrSort(SInt))
 	}
 	return arrSort(SInt)
 }
@@ -118,7 +123,7 @@ func init() {
 		if n, ok := s.knownLen(args[2]); ok {
 			h := s.heapGet(st, heapName("A", etcdPkg+".OpOption", ""), arrSort(arrSort(SInt)))
 			for i := 0; i < n; i++ {
-				o := Select(Select(h, args[2].L[0]), Add(args[2].L[1], I(int64(i))))
+				o := Select(Select(h, args[2].L[0]), s.sidx(args[2].L[1], I(int64(i))))
 				lease = Ite(s.uf("opt:islease", SBool, o), s.uf("opt:lease", SInt, o), lease)
 			}
 		} else {
@@ -227,7 +232,7 @@ func (s *Session) txnAppend(fr *Frame, recv Val, items Val, st *State, kind stri
 	n, ok := s.knownLen(items)
 	if ok {
 		for i := 0; i < n; i++ {
-			el := s.load(st, &Loc{Kind: "A", TypeKey: typeKey(et), Ref: items.L[0], Idx: []T{Add(items.L[1], I(int64(i)))}, Typ: et})
+			el := s.load(st, &Loc{Kind: "A", TypeKey: typeKey(et), Ref: items.L[0], Idx: []T{s.sidx(items.L[1], I(int64(i)))}, Typ: et})
 			for f := 0; f < 4; f++ {
 				arr := s.txnArr(st, kind+":"+names[f], SInt)
 				v := el.L[leafIdx(et, fields[f])]
@@ -246,7 +251,7 @@ func (s *Session) txnAppend(fr *Frame, recv Val, items Val, st *State, kind stri
 		for p := 0; p < maxTxnItems; p++ {
 			pos := I(int64(p))
 			rel := s.define("rel", Sub(pos, base))
-			el := s.load(st, &Loc{Kind: "A", TypeKey: typeKey(et), Ref: items.L[0], Idx: []T{Add(items.L[1], rel)}, Typ: et})
+			el := s.load(st, &Loc{Kind: "A", TypeKey: typeKey(et), Ref: items.L[0], Idx: []T{s.sidx(items.L[1], rel)}, Typ: et})
 			v := el.L[leafIdx(et, fields[f])]
 			inner = Store(inner, pos, Ite(And(Le(base, pos), Lt(rel, ln)), v, Select(Select(arr, h), pos)))
 		}
